@@ -80,6 +80,7 @@ type ReplayFile struct {
 	Run       int        `json:"run"`
 	Tape      []uint32   `json:"tape"`
 	OrigLen   int        `json:"original_tape_len"`
+	OrigTape  []uint32   `json:"original_tape,omitempty"` // the unminimised tape of the run that failed
 	Violation *Violation `json:"violation"`
 	Trace     []string   `json:"trace"`
 	RepoHead  string     `json:"repo_head,omitempty"`
@@ -203,7 +204,11 @@ func WorkerMain(t *testing.T, engineName string, engines map[string]EngineSpec) 
 			os.Exit(2)
 		}
 		tier, mode = rf.Tier, rf.Mode
-		c := mkCtx(ReplayTape(rf.Tape), rf.Run)
+		tape := rf.Tape
+		if os.Getenv("VERIF_REPLAY_ORIG") != "" && len(rf.OrigTape) > 0 {
+			tape = rf.OrigTape
+		}
+		c := mkCtx(ReplayTape(tape), rf.Run)
 		c.Seed, c.Replay = rf.Seed, true
 		w := watchdog("replay")
 		v, herr := RunOne(t, spec, c)
@@ -324,7 +329,7 @@ func WorkerMain(t *testing.T, engineName string, engines map[string]EngineSpec) 
 		min, mv, mtrace, nruns := Shrink(t, spec, func(tt *Tape) *Ctx { return mkCtx(tt, run) }, orig, v, shrinkBudget, runTimeout)
 		res.ShrinkRuns += nruns
 		rf := ReplayFile{Engine: engineName, Property: prop, Tier: tier, Mode: mode, Seed: seed, Run: run, Tape: min,
-			OrigLen: len(orig), Violation: mv, Trace: mtrace, RepoHead: os.Getenv("VERIF_REPO_HEAD")}
+			OrigLen: len(orig), OrigTape: orig, Violation: mv, Trace: mtrace, RepoHead: os.Getenv("VERIF_REPO_HEAD")}
 		os.MkdirAll(replayDir, 0o755)
 		p := filepath.Join(replayDir, fmt.Sprintf("%s-%d-%d.json", prop, seed, run))
 		b, _ := json.MarshalIndent(rf, "", " ")
